@@ -257,6 +257,7 @@ def gen_file(rng, ids):
     recs, keys, stream = [], set(), []
     nseries = rng.randint(1, 5)
     full_seen = False
+    want_clean = rng.random() < 0.6
     for j in range(nseries):
         var = rng.randrange(len(ids.names))
         if ens == "none":
@@ -265,7 +266,19 @@ def gen_file(rng, ids):
             mem = rng.randrange(E)
         else:
             mem = rng.randrange(E) if (rng.random() < 0.6 or j == 0) else None
-        if j == nseries - 1 and not full_seen:
+        if want_clean:
+            def free(mm, vv):
+                if ens == "virtual":
+                    return not any(v2 == vv and (mm is None or m2 is None or m2 == mm) for (m2, v2) in keys)
+                return (mm, vv) not in keys
+            if not free(mem, var):
+                opts = [(mm, vv) for vv in range(len(ids.names))
+                        for mm in ([None] if ens == "none" else list(range(E)) + ([None] if ens == "virtual" and j else []))
+                        if free(mm, vv)]
+                if not opts:
+                    break
+                mem, var = rng.choice(opts)
+        if (j == nseries - 1 and not full_seen) or (want_clean and j == 0):
             a, b = 0, n - 1
         else:
             a = rng.choice([0, 0, rng.randrange(n)])
@@ -279,27 +292,27 @@ def gen_file(rng, ids):
         vals = [x if isnan(x) or not binary else f32(x) for x in gen_vals(rng, nv)]
         evt = T[a:b + 1]
         evs = list(vals)
-        if not binary and rng.random() < 0.12:  # fewer / more events than announced
+        if not binary and not want_clean and rng.random() < 0.25:  # fewer / more events than announced
             clean = False
             if rng.random() < 0.5 and nv > 1:
                 evt, evs = evt[:-1], evs[:-1]
             else:
                 evt, evs = evt + [evt[-1] + (d or 60)], evs + [7.0]
         s0, s1 = T[a], T[b]
-        if (not neq) and rng.random() < 0.08:  # header not on the grid: rounding rules (correspondence only)
+        if (not neq) and not want_clean and rng.random() < 0.15:  # header not on the grid: rounding rules (correspondence only)
             clean = False
             s0 += rng.choice([d // 3, -(d // 3), d // 2]) if d > 1 else 0
-        hf = fc if (fc is not None and rng.random() < 0.8) else None
+        hf = fc if (fc is not None and (want_clean or rng.random() < 0.7)) else None
         recs.append({"hdr": {"var": var, "member": mem, "step": d, "start": s0, "stop": s1, "forecast": hf,
                              "miss": xv(miss), "unit": rng.choice(P.UNITS)},
                      "evt": [] if binary else evt, "evs": [] if binary else [xv(x) for x in evs],
                      "_range": (a, b), "_vals": vals})
         stream += vals
-    if rng.random() < 0.06 and len(recs) > 1:  # inconsistent forecast dates -> rejected
+    if not want_clean and rng.random() < 0.12 and len(recs) > 1:  # inconsistent forecast dates -> rejected
         recs[-1]["hdr"]["forecast"] = T[0] + 17
         recs[0]["hdr"]["forecast"] = T[0]
         clean = False
-    if rng.random() < 0.04 and len(recs) > 1 and not neq:  # inconsistent steps -> rejected
+    if not want_clean and rng.random() < 0.08 and len(recs) > 1 and not neq:  # inconsistent steps -> rejected
         recs[-1]["hdr"]["step"] = d + 1
         clean = False
     # order dependence of the forecast check (noted, outside the property): a first series without
@@ -307,13 +320,18 @@ def gen_file(rng, ids):
     if recs[0]["hdr"]["forecast"] is None and any(
             r["hdr"]["forecast"] not in (None, recs[0]["hdr"]["start"]) for r in recs[1:]):
         clean = False
+    if ens == "virtual":  # a series without index lands in every member: overlaps count as overwrites
+        for i1, r1 in enumerate(recs):
+            for r2 in recs[i1 + 1:]:
+                if r1["hdr"]["var"] == r2["hdr"]["var"] and (r1["hdr"]["member"] is None or r2["hdr"]["member"] is None):
+                    clean = False
     b = None
     if binary:
         r = rng.random()
-        if r < 0.08:
+        if r < 0.15 and not want_clean:
             b = None  # placeholder file without .bin
             clean = False
-        elif r < 0.16 and len(stream) > 1:
+        elif r < 0.3 and len(stream) > 1 and not want_clean:
             b = [xv(x) for x in stream[:-1]]
             clean = False
         else:
@@ -600,8 +618,8 @@ def run(c):
     c.prove()
     tmp = tempfile.mkdtemp(prefix="c11_")
     try:
-        stream_roundtrip(c, c.n(60, 700), tmp)
-        stream_reader(c, c.n(80, 900), tmp)
-        stream_resize(c, c.n(50, 600), tmp)
+        stream_roundtrip(c, c.n(120, 1500), tmp)
+        stream_reader(c, c.n(160, 2000), tmp)
+        stream_resize(c, c.n(100, 1200), tmp)
     finally:
         shutil.rmtree(tmp, ignore_errors=True)
